@@ -9,7 +9,9 @@
     req    — ?wsdl or an rpc request: protocol family, CONTENT_LENGTH text (absent, empty, any text),
              length of the request document, what the complete document leads to (malformed, unknown
              method, validation error, each fault class raised by user code, success with a plain /
-             generator / user-supplied lazy or sized out_string, serialisation failure)
+             generator / user-supplied lazy or sized out_string, serialisation failure), and transport-level
+             listeners that replace the outgoing stream: `wsgi_return` (any new chunking, sized or lazy)
+             and `wsgi_exception` (any new chunk list)
     stream — an adversarial `wsgi.input`: the i-th read(n) returns min n aᵢ bytes, then EOF
     abort  — `none`: the server takes the whole body; `some k`: it stops after k chunks; either way it
              then calls close() on the iterable
@@ -22,9 +24,10 @@ open SpyneModel SpyneModel.Wsgi SpyneModel.Generated
 
 /-! ### the facts of /repo (T1) -/
 
-/-- the six behaviour switches measured on /repo have their good values: the context is finalised by
+/-- the eight behaviour switches measured on /repo have their good values: the context is finalised by
     the response iterable (rpc and ?wsdl), chunks are joined as bytes, a non-numeric CONTENT_LENGTH
-    and an empty Soap11 body are Client faults, `next(g)` on a generator result is guarded -/
+    and an empty Soap11 body are faults, `next(g)` on a generator result is guarded, and the
+    `wsgi_return` / `wsgi_exception` events fire before the transport measures the outgoing stream -/
 theorem facts_good : facts13.Good := by decide
 
 /-- every status the transport can pick by itself is a three-digit HTTP status -/
@@ -106,7 +109,8 @@ theorem body_chunks_are_bytes (cfg : Cfg) (req : Req) (stream : List Nat) (abort
   | none => exact (hr hwk).2.2.2 _ hc
 
 /-- a Content-Length header, when sent, equals the number of body bytes: the delivered bytes never
-    exceed it, and reach it exactly when the server takes the whole body -/
+    exceed it, and reach it exactly when the server takes the whole body — for every request, including
+    those whose `wsgi_return` / `wsgi_exception` listener replaced the outgoing stream -/
 theorem content_length_exact (cfg : Cfg) (req : Req) (stream : List Nat) (abort : Option Nat)
     (s : Nat) (f : Option FaultClass) (n : Nat)
     (hm : Ev.startResponse s f (some n) ∈ handle facts13 cfg req stream abort) :
@@ -114,6 +118,34 @@ theorem content_length_exact (cfg : Cfg) (req : Req) (stream : List Nat) (abort 
     (abort = none → bodyBytes (handle facts13 cfg req stream abort) = n) := by
   obtain ⟨pre, o, h, _, _⟩ := handle_answered facts13 cfg req stream abort facts_good
   exact h.content_length s f n hm
+
+/-- what a `wsgi_return` listener put in place of the outgoing stream is what the transport joins,
+    measures and sends -/
+theorem rewritten_response_is_measured (cfg : Cfg) (req : Req) (r : Resp) (w : Rewrite)
+    (h : req.onReturn = some w) :
+    withReturnListener facts13 cfg req r = successOut facts13 cfg { r with chunks := w.chunks, sized := w.sized } := by
+  have hb : facts13.returnEventBeforeLength = true := by decide
+  simp [withReturnListener, h, hb]
+
+/-- what a `wsgi_exception` listener put in place of the fault document is what is measured and sent -/
+theorem rewritten_fault_is_measured (req : Req) (preset : Option Nat) (fc : FaultClass) (w : List Nat)
+    (h : req.onException = some w) :
+    ∃ o, errorOut facts13 req preset fc = .out o ∧ o.cl = some (sum w) ∧ o.chunks = w.map (fun n => (n, true)) := by
+  have hb : facts13.errorEventBeforeLength = true := by decide
+  exact ⟨_, rfl, by simp [errLen, errBody, h, hb], by simp [errBody, h]⟩
+
+/-- why the two event facts matter (any `F`): with `wsgi_return` fired after the length computation a
+    listener that changes the size of the stream makes the announced length wrong -/
+theorem return_event_after_length_breaks_content_length (F : Facts13)
+    (hb : F.returnEventBeforeLength = false) (ht : F.closeTiming = .afterBody) (hj : F.joinKind = .bytes) :
+    ∃ (cfg : Cfg) (req : Req) (n : Nat), Ev.startResponse F.okStatus none (some n) ∈ handle F cfg req [] none ∧
+      bodyBytes (handle F cfg req [] none) ≠ n :=
+  ⟨⟨false, 100, 7⟩,
+   { wsdl := none, soapOut := false, soapIn := false, preReject := false, readsBody := false,
+     contentLength := none, docLen := 0, faultLen := 9,
+     intended := .success ⟨none, .notGen, false, [5], true⟩, onReturn := some ⟨[2], true⟩, onException := none },
+   5, by simp [handle, process, intendedResult, afterUser, withReturnListener, successOut, hb, ht, hj, finish, deliver,
+     sum, chunkEvs, taken, finalEvs, bodyBytes]⟩
 
 /-- with `chunked=False` every rpc answer carries a Content-Length -/
 theorem unchunked_sends_content_length (cfg : Cfg) (req : Req) (stream : List Nat) (abort : Option Nat)
@@ -186,11 +218,12 @@ theorem too_long_refused_partial (cfg : Cfg) (req : Req) (stream : List Nat) (ab
     (hw : req.wsdl = none) (hp : req.preReject = false) (hb : req.readsBody = true)
     (hd : declaredLength cfg req.contentLength = some d) (h : d > (cfg.maxLen : Int)) :
     handle facts13 cfg req stream abort =
-      .startResponse (faultStatus facts13 req .tooLong) (some .tooLong) (some req.faultLen) :: .returned ::
-        (chunkEvs (taken abort [(req.faultLen, true)]) ++ [.ctxClosed, .wsgiClose]) := by
+      .startResponse (faultStatus facts13 req .tooLong) (some .tooLong) (some (sum (errBody req))) :: .returned ::
+        (chunkEvs (taken abort ((errBody req).map (fun n => (n, true)))) ++ [.ctxClosed, .wsgiClose]) := by
   have ht : facts13.closeTiming = .afterBody := by decide
+  have he : facts13.errorEventBeforeLength = true := by decide
   simp [handle, hw, process_declared_over facts13 cfg req stream d hp hb hd h, finish, errorOut, deliver, ht,
-    finalEvs]
+    finalEvs, errLen, he]
 
 /-- consequence: no read, no user code -/
 theorem too_long_reads_nothing_runs_nothing (cfg : Cfg) (req : Req) (stream : List Nat) (abort : Option Nat) (d : Int)
@@ -217,7 +250,7 @@ theorem undeclared_overlong_body_is_truncated :
   ⟨⟨true, 10, 8192⟩,
    { wsdl := none, soapOut := false, soapIn := false, preReject := false, readsBody := true,
      contentLength := none, docLen := 10, faultLen := 50,
-     intended := .success ⟨none, .notGen, false, [4], true⟩ },
+     intended := .success ⟨none, .notGen, false, [4], true⟩, onReturn := none, onException := none },
    [15], by decide⟩
 
 /-- the user function is entered only for a document that calls it, at most once, and — when the
@@ -295,7 +328,7 @@ def exCfg : Cfg := ⟨true, 100, 7⟩
 def exReq : Req :=
   { wsdl := none, soapOut := false, soapIn := false, preReject := false, readsBody := true,
     contentLength := some "20".toList, docLen := 20, faultLen := 30,
-    intended := .success ⟨none, .yields, false, [1, 2, 3], true⟩ }
+    intended := .success ⟨none, .yields, false, [1, 2, 3], true⟩, onReturn := none, onException := none }
 
 example : handle facts13 exCfg exReq [5, 100, 100, 100] (some 2) =
     [.read 7 5, .read 7 7, .read 7 7, .read 1 1, .user, .startResponse 200 none (some 6), .returned,
@@ -307,6 +340,18 @@ example : declaredLength exCfg (some "101".toList) = some 101 ∧ (101 : Int) > 
 example : handle facts13 exCfg { exReq with contentLength := some "101".toList } [200] none =
     [.startResponse 413 (some .tooLong) (some 30), .returned, .chunk 30 true, .ctxClosed, .wsgiClose] := by
   decide +kernel
+-- a `wsgi_exception` listener that replaces the fault document by two chunks
+example : handle facts13 exCfg { exReq with contentLength := some "101".toList, onException := some [4, 3] } [200] none =
+    [.startResponse 413 (some .tooLong) (some 7), .returned, .chunk 4 true, .chunk 3 true, .ctxClosed, .wsgiClose] := by
+  decide +kernel
+-- a `wsgi_return` listener that replaces a 6-byte, 3-chunk stream by one of 2 bytes (hypothesis of
+-- `rewritten_response_is_measured`), chunked and not
+example : handle facts13 exCfg { exReq with onReturn := some ⟨[2], true⟩ } [100, 100, 100] none =
+    [.read 7 7, .read 7 7, .read 6 6, .user, .startResponse 200 none (some 2), .returned, .chunk 2 true,
+     .ctxClosed, .wsgiClose] := by decide +kernel
+example : handle facts13 ⟨false, 100, 7⟩ { exReq with onReturn := some ⟨[1, 1], false⟩ } [100, 100, 100] none =
+    [.read 7 7, .read 7 7, .read 6 6, .user, .startResponse 200 none (some 2), .returned, .chunk 2 true,
+     .ctxClosed, .wsgiClose] := by decide +kernel
 -- a non-numeric CONTENT_LENGTH is a Client fault
 example : handle facts13 exCfg { exReq with contentLength := some "abc".toList } [200] none =
     [.startResponse 400 (some .client) (some 30), .returned, .chunk 30 true, .ctxClosed, .wsgiClose] := by
